@@ -178,4 +178,108 @@ class Pipeline(BCheck):
             shutil.rmtree(d, ignore_errors=True)
 
 
-B_CHECKS = [Pipeline()]
+class UnprocessedRecords(BCheck):
+    """Records that haplotagphase does not process itself (multi-allelic ones under --no-mav) must still come out as they went in when they were
+    already phased: the last clause of the statement does not depend on the options."""
+    name = "C17.already-phased-records"
+    contract = ("haplotagphase with or without --no-mav on a VCF whose records are partly phased already, some of them multi-allelic (two ALT alleles, genotypes over "
+                "{0,1,2}): every record that is phased in the input keeps its GT string and PS; every record it phases gets the allele order and phase set of the tagging VCF")
+    rule = ("seeded scenarios: 1 sample, 1 contig of 400-700 bp, 4-7 SNVs >= 25 bp apart of which about a third have two ALT alleles, one phase set, error-free tiled reads of "
+            "60-150 bp from both haplotypes; each record independently left phased or unphased in the haplotagphase input; mav on/off alternating; non-trivial = always")
+    budget_s = {"quick": 60, "thorough": 600}
+    chunk = 4
+
+    def inputs(self, tier, rng):
+        for i in range(300 if tier == "quick" else 4000):
+            yield dict(seed=rng.getrandbits(48), mav=(i % 2 == 0))
+
+    def check(self, inp):
+        from whatshap.cli.haplotag import run_haplotag
+        from whatshap.cli.haplotagphase import run_haplotagphase
+        import logging
+        import pysam
+        logging.disable(logging.CRITICAL)
+        r = random.Random(inp["seed"])
+        L = r.randint(400, 700)
+        ref = BAM.rand_seq(r, L)
+        variants = []
+        pos = r.randint(30, 50)
+        while len(variants) < r.randint(4, 7) and pos < L - 40:
+            others = [b for b in "ACGT" if b != ref[pos]]
+            r.shuffle(others)
+            n_alt = 2 if r.random() < 0.35 else 1
+            alts = others[:n_alt]
+            if n_alt == 1:
+                gt = r.choice([(0, 1), (1, 0)])
+            else:
+                gt = tuple(r.sample([0, 1, 2], 2))
+            variants.append(dict(pos=pos, ref=ref[pos], alts=alts, gt=gt))
+            pos += r.randint(25, 60)
+        if len(variants) < 2:
+            return None
+        haps = []
+        for h in (0, 1):
+            t = list(ref)
+            for v in variants:
+                a = v["gt"][h]
+                if a:
+                    t[v["pos"]] = v["alts"][a - 1]
+            haps.append("".join(t))
+        reads = []
+        for h in (0, 1):
+            start = r.randint(0, 20)
+            k = 0
+            while start < L - 40:
+                n = min(L - start, r.randint(60, 150))
+                reads.append(dict(name="h%d.%d" % (h, k), contig="chr1", sample="S0", start=start, cigar=[["M", n]], seq=haps[h][start:start + n], hap=h))
+                start += r.randint(15, 45)
+                k += 1
+        sc = dict(contigs=[dict(name="chr1", seq=ref, variants=[])], samples=["S0"], reads=reads)
+        ps = variants[0]["pos"] + 1
+        phased_in = [r.random() < 0.5 for _ in variants]
+        head = ("##fileformat=VCFv4.2\n##contig=<ID=chr1,length=%d>\n##FORMAT=<ID=GT,Number=1,Type=String,Description=\"Genotype\">\n"
+                "##FORMAT=<ID=PS,Number=1,Type=Integer,Description=\"Phase set\">\n#CHROM\tPOS\tID\tREF\tALT\tQUAL\tFILTER\tINFO\tFORMAT\tS0\n" % L)
+
+        def text(keep):
+            rows = []
+            for v, k_ in zip(variants, keep):
+                call = ("%d|%d:%d" % (v["gt"][0], v["gt"][1], ps)) if k_ else ("%d/%d:." % tuple(sorted(v["gt"])))
+                rows.append("chr1\t%d\t.\t%s\t%s\t.\tPASS\t.\tGT:PS\t%s" % (v["pos"] + 1, v["ref"], ",".join(v["alts"]), call))
+            return head + "\n".join(rows) + "\n"
+        d = tempfile.mkdtemp(prefix="c17b_")
+        try:
+            paths = BAM.materialize(sc, d)
+            vcf = BAM.write_indexed_vcf(text([True] * len(variants)), os.path.join(d, "phased.vcf.gz"))
+            tagged = os.path.join(d, "tagged.bam")
+            run_haplotag(vcf, paths["bam"], output=tagged, reference=paths["fasta"])
+            pysam.index(tagged)
+            in_text = text(phased_in)
+            unph = BAM.write_indexed_vcf(in_text, os.path.join(d, "input.vcf.gz"))
+            out = os.path.join(d, "out.vcf")
+            try:
+                run_haplotagphase(unph, tagged, output=out, reference=paths["fasta"], write_command_line_header=False, mav=inp["mav"])
+            except Exception as e:
+                import traceback
+                return dict(expected="run_haplotagphase succeeds", observed="%s: %s" % (type(e).__name__, e), traceback=traceback.format_exc()[-1500:])
+            rows = [l.split("\t") for l in open(out).read().split("\n") if l and not l.startswith("#")]
+            if len(rows) != len(variants):
+                return dict(expected="%d records" % len(variants), observed="%d records" % len(rows), clause="records")
+            for v, k_, row in zip(variants, phased_in, rows):
+                f = dict(zip(row[8].split(":"), row[9].split(":")))
+                where = "chr1:%d %s>%s" % (v["pos"] + 1, v["ref"], ",".join(v["alts"]))
+                want = "%d|%d" % v["gt"]
+                if k_:
+                    if f.get("GT") != want or f.get("PS") != str(ps):
+                        return dict(expected="%s already phased in the input as %s:%d stays unaltered (mav=%s)" % (where, want, ps, inp["mav"]),
+                                    observed="%s:%s" % (f.get("GT"), f.get("PS")), clause="already-phased-unaltered", multiallelic=(len(v["alts"]) > 1))
+                elif "|" in f.get("GT", ""):
+                    if f.get("GT") != want or f.get("PS") != str(ps):
+                        return dict(expected="%s newly phased exactly as in the tagging VCF: %s:%d" % (where, want, ps), observed="%s:%s" % (f.get("GT"), f.get("PS")),
+                                    clause="orientation-and-set", multiallelic=(len(v["alts"]) > 1))
+            return None
+        finally:
+            logging.disable(logging.NOTSET)
+            shutil.rmtree(d, ignore_errors=True)
+
+
+B_CHECKS = [Pipeline(), UnprocessedRecords()]
